@@ -23,7 +23,7 @@ RULE = ("case = a history of 2..6 RE(plan, **kw) calls on one engine, each openi
         "distinct = (key-overlap pattern, normalizer, validator history shape, scan_id source)")
 ASSUMPTIONS = ["reserved keys uid/time are not supplied; schema-typed keys are only given schema-valid values"]
 REQUIRED_COUNTERS = {"histories": 200, "starts_checked": 500, "rejected_opens": 100, "overlapping_keys": 500,
-                     "accept_after_reject": 50, "start_emission_faults": 30, "empty_normalizer_results": 10}
+                     "accept_after_reject": 50, "start_emission_faults": 30, "empty_normalizer_results": 5}
 MANIFEST = {
     "technique": "reference merge model vs RunStart documents of the real engine over seeded multi-call histories with "
                  "overlapping metadata sources, validators and normalizers",
@@ -87,7 +87,7 @@ def run_case(case):
     for i in range(case["start"], case["start"] + case["count"]):
         rng = rng_for(case["seed"], "C17", i)
         sub = {"start": i, "count": 1, "seed": case["seed"]}
-        norm_name = rng.choice(["identity", "identity", "add", "rename", "drop", "whitelist"])
+        norm_name = rng.choice(["identity", "identity", "add", "rename", "drop", "whitelist", "whitelist"])
         norm = normalizers()[norm_name]
         src_kind = rng.choice(["default", "default", "sync", "async"])
         kw = {}
